@@ -13,6 +13,15 @@ import (
 
 func writeEvidence(a OrchArgs, info *props.Info, agg *Agg, violations int, wall float64) error {
 	dir := filepath.Join(Home(), "evidence")
+	if r := os.Getenv("VERIF_REPO"); r != "" && r != "/repo" && os.Getenv("VERIF_EVIDENCE_ANYWAY") == "" {
+		// a run against another tree (a scratch copy with a change applied, a snapshot) says nothing
+		// about /repo: its evidence goes next to the build output, not into the committed directory
+		dir = filepath.Join(Home(), ".build", "evidence-of-other-trees")
+	}
+	if d := os.Getenv("VERIF_EVIDENCE_DIR"); d != "" {
+		// (the developer tools that apply a change to /repo itself, run a check and revert say so)
+		dir = d
+	}
 	if err := os.MkdirAll(dir, 0o755); err != nil {
 		return err
 	}
